@@ -512,6 +512,8 @@ func c12Stream(r *hx.Rand, tier string, n int, w *bufio.Writer) map[string]int {
 	}
 	// ---- (c2) generic JSON documents: language tags, locales, documents with a locale member (round trip), the other decoders
 	c12CodecStream(r, tier, n, emit, func() int64 { return int64(caseNo) }, stats)
+	// ---- (c3) the JSON wrapper methods of the eight claims / response types along multi-step histories (c12wrap.go)
+	c12WrapStream(r, tier, n, emit, func() int64 { return int64(caseNo) }, stats)
 	// ---- (d) AES sealing
 	for i := 0; i < n/3; i++ {
 		klen := hx.Pick(r, 16, 24, 32)
